@@ -2,6 +2,8 @@
 # Full build of the Coq development, extraction and the modelrun driver.
 set -e
 cd "$(dirname "$0")"
+# the access table of C19 is regenerated from /repo's working tree (tools/raceaudit)
+sh ../tools/raceaudit/run.sh theories/Race/Table.v || { echo "RACEAUDIT FAILED"; exit 1; }
 FILES=$(find theories -name '*.v' | grep -v '/Extract.v$' | sort)
 { cat _CoqProject.base; echo "$FILES"; echo theories/Extract.v; } > _CoqProject
 coq_makefile -f _CoqProject -o Makefile.coq >/dev/null
